@@ -613,6 +613,16 @@ class ConstructInterface(Interface):
         good = st
         if name == 'sum':
             tot = fresh('sum', t.INT)
+            e = node.elt
+            if (isinstance(e, ast.Call) and isinstance(e.func, ast.Attribute) and e.func.attr == '_sizeof' and isinstance(e.func.value, ast.Name)
+                    and isinstance(g.target, ast.Name) and e.func.value.id == g.target.id and len(e.args) == 2 and isinstance(e.args[0], ast.Name)
+                    and e.args[0].id in gen.env and isinstance(gen.env[e.args[0].id], VRef) and isinstance(st.get(gen.env[e.args[0].id]), OContainer)):
+                # sum(sc._sizeof(context, path) for sc in self.subcons): the specification sum of the members' sizes in that scope
+                prelude.define('zsum', """(define-fun-rec zsum ((sl Int) (k Int) (H (Array Int (Array String Val))) (D (Array Int (Array String Bool))) (c Int)) Int
+  (ite (<= k 0) 0 (+ (zsum sl (- k 1) H D c) (Z_val (sl_at sl (- k 1)) H D c))))""", deps=['Z_val', 'sl_at'])
+                H, D = self.H(st)
+                tot = t.app('zsum', t.INT, sl.ident, n, H, D, st.get(gen.env[e.args[0].id]).addr)
+                good.ghost.setdefault('first_sub_ctx', (st.get(gen.env[e.args[0].id]).addr, H, D))
             if '._sizeof(' in ast.unparse(node.elt):
                 good.assume(t.ge(tot, t.ZERO))     # every sub-construct size is >= 0 (interface clause)
             good.ghost['last_sum_over'] = sl.ident
